@@ -124,7 +124,10 @@ def merge(results):
         out.exhaustive.update(r["exhaustive"])
         for k, v in r.get("sets", {}).items():
             out.sets[k] |= v
-        out.samples.extend(r["samples"][: max(1, MAX_SAMPLES // max(1, len(results)) + 1)])
+        k = max(1, MAX_SAMPLES // max(1, len(results)) + 1)
+        smp = r["samples"]
+        # the first example of every Hypothesis run is the same minimal one: prefer later samples
+        out.samples.extend(smp[1:1 + k] if len(smp) > k else smp[:k])
         for k, b in r["buckets"].items():
             ob = out.buckets.setdefault(k, {"count": 0, "cases": []})
             ob["count"] += b["count"]
